@@ -146,37 +146,30 @@ Require Import Blots.C10Ident Blots.gen.IdentRules Blots.C10IdentImpl Blots.proo
 
 (* P1  Every name made of letters, digits and underscores (not starting with a digit) other than the
    reserved words, followed by the end of input or a character that cannot continue a name, is
-   read whole as `identifier` by the ordered choice of `term` — unless it extends true / false /
-   null (class of the open finding C10-bool-null-prefix) while bool / null lack the look-ahead.
-   Symbolic in the name: unbounded. *)
+   read whole as `identifier` by the ordered choice of `term`.  Symbolic in the name: unbounded.
+   (Until /repo commit 52e01fd this was refuted for names extending true / false / null — known
+   finding C10-bool-null-prefix, now fixed: `bool` / `null` carry the look-ahead `~ !identifier_rest`,
+   which the translator reads as bool_boundary = null_boundary = true.  A regression flips the
+   generated flags and breaks this proof; proofs/C10IdentProofs.v keeps the conditional lemma
+   ident_rule_full_refuted : bool_boundary = false -> ~ ident_rule_full with the witness `trueish + 1`.) *)
 Theorem C10_ident_rule : forall s rest,
   valid_name s = true -> is_reserved reserved_words s = false -> boundary rest = true ->
-  (known_C10 s = false \/ (bool_boundary = true /\ null_boundary = true)) ->
   term_word_impl (s ++ rest) = Some (AIdent, rest).
-Proof. exact ident_rule_impl. Qed.
+Proof. exact (ident_rule_full_when_guarded eq_refl eq_refl). Qed.
 Check C10_ident_rule : forall s rest,
   valid_name s = true -> is_reserved reserved_words s = false -> boundary rest = true ->
-  (known_C10 s = false \/ (bool_boundary = true /\ null_boundary = true)) ->
   term_word_impl (s ++ rest) = Some (AIdent, rest).
 Print Assumptions C10_ident_rule.
 
-Example ident_rule_hyps : valid_name "iffy_2" = true /\ is_reserved reserved_words "iffy_2" = false /\
-                          boundary "(1)" = true /\ known_C10 "iffy_2" = false.
+Example ident_rule_hyps : valid_name "trueish" = true /\ is_reserved reserved_words "trueish" = false /\
+                          boundary " + 1" = true.
 Proof. vm_compute. repeat split. Qed.
-
-(* The statement without the exclusion (the property as written) ... *)
-Definition C10_ident_rule_full : Prop := ident_rule_full.
-(* ... is REFUTED by the faithful model as long as `bool` has no word boundary (witness `trueish + 1`:
-   the literal `true` matches and `ish + 1` is left over); with the proposed fix
-   (fixes/C10-bool-null-word-boundary.diff) the generated flags become true, this lemma becomes
-   vacuous and C10_ident_rule covers every name. *)
-Lemma C10_ident_rule_full_refuted : bool_boundary = false -> ~ C10_ident_rule_full.
-Proof. exact ident_rule_full_refuted. Qed.
-Lemma C10_ident_refuted_witness : bool_boundary = false ->
-  term_word_impl "trueish + 1" = Some (ABool, "ish + 1").
-Proof. exact ident_refuted_witness. Qed.
-Lemma C10_ident_rule_full_when_fixed : bool_boundary = true -> null_boundary = true -> C10_ident_rule_full.
-Proof. exact ident_rule_full_when_guarded. Qed.
+Example ident_rule_trueish : term_word_impl "trueish + 1" = Some (AIdent, " + 1").
+Proof. vm_compute. reflexivity. Qed.
+(* the reserved words themselves are not names *)
+Example reserved_not_names :
+  forallb (fun w => match term_word_impl w with Some (AIdent, _) => false | _ => true end) reserved_words = true.
+Proof. vm_compute. reflexivity. Qed.
 
 (* ---------------------------------------------------------------------------------------------
    More consequences at the token level. *)
@@ -232,38 +225,33 @@ Proof. reflexivity. Qed.
 (* P0  Every symbol operator, written directly after an operand (also after a factorial or a field
    access) and directly before the next operand, is read as itself: no shorter alternative of the
    ordered choice wins (`<=` vs `<`, `.<=` vs `.<`, ...) and no postfix operator takes its first
-   character — except `!=` while `factorial` is the bare "!" (class of the open finding
-   C10-bang-equals).  Finite: the 21 alternatives of infix_op. *)
+   character; likewise with blanks.  Finite: the 21 alternatives of infix_op.
+   (Until /repo commit 8d3b092 this was refuted for `!=` — known finding C10-bang-equals, now fixed:
+   `factorial = { "!" ~ !("=" ~ !"=") }`, read as factorial_guard = 2.  proofs/C10IdentProofs.v keeps
+   tight_ops_full_refuted : factorial_guard = 0 -> ~ tight_ops_full with the witness `!=b`.) *)
 Theorem C10_tight_operators :
-  forallb (fun rw => (known_bang (fst rw) && Nat.eqb factorial_guard 0)
-                     || after_is (after_operand_impl (snd rw ++ "b")) 0 0 (fst rw) "b") infix_ops = true
+  forallb (fun rw => after_is (after_operand_impl (snd rw ++ "b")) 0 0 (fst rw) "b") infix_ops = true
   /\
-  forallb (fun rw => (known_bang (fst rw) && Nat.eqb factorial_guard 0)
-                     || (after_is (after_operand_impl ("!" ++ snd rw ++ "b")) 1 0 (fst rw) "b" &&
-                         after_is (after_operand_impl (".f" ++ snd rw ++ "b")) 0 1 (fst rw) "b")) infix_ops = true
+  forallb (fun rw => after_is (after_operand_impl ("!" ++ snd rw ++ "b")) 1 0 (fst rw) "b" &&
+                     after_is (after_operand_impl (".f" ++ snd rw ++ "b")) 0 1 (fst rw) "b") infix_ops = true
   /\
   forallb (fun rw => after_is (after_operand_impl (" " ++ snd rw ++ " b")) 0 0 (fst rw) "b" &&
                      after_is (after_operand_impl (" " ++ snd rw ++ "b")) 0 0 (fst rw) "b") infix_ops = true.
-Proof. exact (conj tight_ops_all (conj tight_ops_after_postfix spaced_ops_all)). Qed.
+Proof. vm_compute. repeat split. Qed.
 Check C10_tight_operators :
-  forallb (fun rw => (known_bang (fst rw) && Nat.eqb factorial_guard 0)
-                     || after_is (after_operand_impl (snd rw ++ "b")) 0 0 (fst rw) "b") infix_ops = true
+  forallb (fun rw => after_is (after_operand_impl (snd rw ++ "b")) 0 0 (fst rw) "b") infix_ops = true
   /\
-  forallb (fun rw => (known_bang (fst rw) && Nat.eqb factorial_guard 0)
-                     || (after_is (after_operand_impl ("!" ++ snd rw ++ "b")) 1 0 (fst rw) "b" &&
-                         after_is (after_operand_impl (".f" ++ snd rw ++ "b")) 0 1 (fst rw) "b")) infix_ops = true
+  forallb (fun rw => after_is (after_operand_impl ("!" ++ snd rw ++ "b")) 1 0 (fst rw) "b" &&
+                     after_is (after_operand_impl (".f" ++ snd rw ++ "b")) 0 1 (fst rw) "b") infix_ops = true
   /\
   forallb (fun rw => after_is (after_operand_impl (" " ++ snd rw ++ " b")) 0 0 (fst rw) "b" &&
                      after_is (after_operand_impl (" " ++ snd rw ++ "b")) 0 0 (fst rw) "b") infix_ops = true.
 Print Assumptions C10_tight_operators.
 
-(* The statement without the exclusion ... *)
-Definition C10_tight_operators_full : Prop := tight_ops_full.
-(* ... is REFUTED while `factorial = { "!" }`: after an operand, `!=b` reads one factorial and leaves
-   `=b` (witness); with fixes/C10-bang-equals.diff the generated guard is 2 and the full statement holds *)
-Lemma C10_tight_operators_full_refuted : factorial_guard = 0 -> ~ C10_tight_operators_full.
-Proof. exact tight_ops_full_refuted. Qed.
-Lemma C10_bang_equals_witness : factorial_guard = 0 -> after_operand_impl "!=b" = AfterNothing 1 0 "=b".
-Proof. exact bang_equals_witness. Qed.
-Lemma C10_tight_operators_full_when_fixed : factorial_guard <> 0 -> C10_tight_operators_full.
-Proof. exact tight_ops_full_when_guarded. Qed.
+(* all 21 symbol operators of the precedence table are alternatives of infix_op *)
+Example infix_ops_cover_table :
+  forallb (fun r => match assoc_find r infix_ops with Some _ => true | None => false end)
+          [R_add; R_subtract; R_multiply; R_divide; R_modulo; R_power; R_equal; R_not_equal; R_less; R_less_eq;
+           R_greater; R_greater_eq; R_dot_equal; R_dot_not_equal; R_dot_less; R_dot_less_eq; R_dot_greater;
+           R_dot_greater_eq; R_and; R_or; R_coalesce] = true.
+Proof. exact infix_ops_complete. Qed.
